@@ -105,14 +105,16 @@ def build_inputs(c, case, tier):
         blocks.append(dict(type=1, num=1, flags=0, crc_type=case['crc'], data=rfc9171.enc(rec), kind='admin-other', rec=rec))
     elif admin:
         t1 = c.sym_int('st_time', 1, 2 ** 64 - 1 if 'st_time' in wset else 23)
-        rec = [1, [[[True, t1], [False], [True, t1], [False]], 5,
+        # reason codes: assigned ones (incl. 11, "block unsupported"), a BPSec one, unassigned ones
+        reason = [5, 0, 11, 15, 17, 255][c.choose(6, 'reason-code')] if (case['shape'] == 'payload' and case.get('subj') == 'whole') else 5
+        rec = [1, [[[True, t1], [False], [True, t1], [False]], reason,
                    rfc9171.eid_cbor(EIDS[0]), [p['create_ts'][0], 7]]]
         sub = None
         if case.get('subj') == 'fragment':
             sub = [rng('sfoff', 2 ** 64 - 1), rng('slen', 2 ** 64 - 1)]
             rec[1].extend(sub)
         data = rfc9171.enc(rec)
-        blocks.append(dict(type=1, num=1, flags=0, crc_type=case['crc'], data=data, kind='admin', rec=rec, t1=t1, sub=sub))
+        blocks.append(dict(type=1, num=1, flags=0, crc_type=case['crc'], data=data, kind='admin', rec=rec, t1=t1, sub=sub, reason=reason))
     else:
         n = c.sym_int('P', 0, 2 ** 32 if 'P' in wset else 23, size=True)
         blocks.append(dict(type=1, num=1, flags=0, crc_type=case['crc'], data=c.sym_blob('payload', n), kind='payload'))
@@ -148,7 +150,7 @@ def impl_bundle(p, blocks):
                 skw = dict(fragment_offset=b['sub'][0], payload_len=b['sub'][1])
             sr = StatusReport(status=StatusInfoArray(received=StatusInfo(status=True, at=t1), forwarded=StatusInfo(status=False),
                                                      delivered=StatusInfo(status=True, at=t1), deleted=StatusInfo(status=False)),
-                              reason_code=5, subj_source=EIDS[0], subj_ts=Timestamp(dtntime=p['create_ts'][0], seqno=7), **skw)
+                              reason_code=b['reason'], subj_source=EIDS[0], subj_ts=Timestamp(dtntime=p['create_ts'][0], seqno=7), **skw)
             cb = cb / AdminRecord() / sr
         else:
             cb.setfieldval('btsd', b['data'])
@@ -161,10 +163,14 @@ def harness(case, tier):
     c = cur()
     from bp.encoding import Bundle
     p, blocks = build_inputs(c, case, tier)
-    b1 = impl_bundle(p, blocks)
-    b1.fill_fields()
-    b1.update_all_crc()
-    octets = rt.b_bytes(b1)
+    try:
+        b1 = impl_bundle(p, blocks)
+        b1.fill_fields()
+        b1.update_all_crc()
+        octets = rt.b_bytes(b1)
+    except Exception as err:
+        c.prove(False, 'encoder-accepts-wellformed-values', detail=repr(err))
+        return {'class': case['kind']}
     # (c) structure, by the independent reader; field values as the reader sees them
     try:
         r = rfc9171.decode_bundle(octets)
